@@ -6,6 +6,7 @@ import os, shutil, subprocess, sys, tempfile, json
 mdir, wt, props = sys.argv[1], sys.argv[2], sys.argv[3].split(",")
 tier = sys.argv[4] if len(sys.argv) > 4 else "quick"
 seeds = [int(x) for x in (sys.argv[5].split(",") if len(sys.argv) > 5 else ["0"])]
+VROOT = os.environ.get("MXV_VERIF_ROOT", "/verif")     # a snapshot of /verif may be used for long background sweeps
 patch = os.path.join(mdir, "patch.diff")
 demo = os.path.join(mdir, "demo.py")
 res = {"dir": mdir}
@@ -34,7 +35,7 @@ try:
     for prop in props:
         for seed in seeds:
             env = dict(os.environ, MXV_REPO=dst, MXV_EVIDENCE_DIR=os.path.join(tmp, "ev"), VERIF_SEED=str(seed))
-            r = run(["./check", prop, "--tier", tier], cwd="/verif", env=env)
+            r = run(["./check", prop, "--tier", tier], cwd=VROOT, env=env)
             out = r.stdout.decode()
             clauses = sorted(set(l.split("clause=")[1].split()[0] for l in out.split("\n") if "clause=" in l))
             tot = [l for l in out.split("\n") if "violating executions" in l]
